@@ -61,7 +61,11 @@ UNMODELLED = [
     '<library_physics_materials xmlns="{ns}"><physics_material id="pm1"><technique_common><dynamic_friction>0.5</dynamic_friction></technique_common></physics_material></library_physics_materials>',
     '<extra xmlns="{ns}"><technique profile="MINE"><foo xmlns="urn:other" a="1">text<bar/>tail</foo></technique></extra>',
     '<library_animation_clips xmlns="{ns}"><animation_clip id="clip1" start="0" end="1"><instance_animation url="#anim1"/></animation_clip></library_animation_clips>',
+    # content in the OTHER COLLADA namespace (1.4.1 elements inside a document of another namespace and the reverse)
+    '<extra xmlns="{ns}"><technique profile="OTHER"><note xmlns="{other}" k="v">kept<light id="not-a-light"/>tail</note></technique></extra>',
 ]
+NS14 = 'http://www.collada.org/2005/11/COLLADASchema'
+NS15 = 'http://www.collada.org/2008/03/COLLADASchema'
 
 
 def canon(el):
@@ -81,12 +85,15 @@ def base_bytes(rng, kind):
         data = b.getvalue()
     else:
         data = open(os.path.join(c02.DATA, kind), 'rb').read()
+    if kind == 'generated' and rng.random() < 0.5:
+        # the same document in another namespace
+        data = data.replace(NS14.encode(), rng.choice([NS15, 'urn:x-%04x:collada' % rng.randrange(1 << 16)]).encode())
     root = ET.fromstring(data)
     ns = root.tag.split('}')[0].lstrip('{')
     inj = []
     for frag in UNMODELLED:
         if rng.random() < 0.6:
-            el = ET.fromstring(frag.replace('{ns}', ns))
+            el = ET.fromstring(frag.replace('{ns}', ns).replace('{other}', NS15 if ns == NS14 else NS14))
             kids = list(root)
             scene_pos = [i for i, c in enumerate(kids) if c.tag.endswith('}scene')]
             if el.tag.endswith('}extra'):
